@@ -7,14 +7,14 @@ Local Open Scope Z_scope.
 Definition mk_variant (a b c d e : bool) : variant :=
   {| v_align := a; v_rawpad := b; v_alloc0 := c; v_clamp := d; v_bofceil := e |}.
 
-Definition x_impl_read (db : database) (v : variant) (rt : ctype) (f : field) (s n : Z) : option (list xval) :=
-  impl_read XAlg db v rt f s n.
-Definition x_spec_window (db : database) (rt : ctype) (f : field) (s n : Z) : list xval :=
-  spec_window XAlg db rt f s n.
-Definition x_spec_val (db : database) (rt : ctype) (f : field) (k : Z) : xval :=
-  spec_val XAlg db rt f k.
-Definition x_uncovered (db : database) (v : variant) (rt : ctype) (f : field) (s n : Z) : list tag :=
-  uncovered XAlg db v rt f s n.
+Definition x_impl_read (db : database) (v : variant) (lb : Z) (rt : ctype) (f : field) (s n : Z) : option (list xval) :=
+  impl_read XAlg db v lb rt f s n.
+Definition x_spec_window (db : database) (lb : Z) (rt : ctype) (f : field) (s n : Z) : list xval :=
+  spec_window XAlg db lb rt f s n.
+Definition x_spec_val (db : database) (lb : Z) (rt : ctype) (f : field) (s k : Z) : xval :=
+  spec_val XAlg db lb rt f s k.
+Definition x_uncovered (db : database) (v : variant) (lb : Z) (rt : ctype) (f : field) (s n : Z) : list tag :=
+  uncovered XAlg db v lb rt f s n.
 Definition x_wfb (db : database) (f : field) : bool := wfb db f.
 Definition x_spf (db : database) (f : field) : Z := spf db f.
 Definition x_eof (db : database) (f : field) : ext := eof db f.
